@@ -13,6 +13,7 @@ kept during `with_locked_env`), where the "one at a time" clause of the guard is
 -/
 import SteelVerif.C16.Lemmas
 import SteelVerif.C16.LemmasRound
+import SteelVerif.C16.ProgressR
 namespace SteelVerif.C16
 open SteelVerif.C15
 set_option linter.unusedSimpArgs false
@@ -962,11 +963,14 @@ theorem join_example :
   and `crossbeam_channel::unbounded` (one handle, one channel, `Nat` payloads), not about the handshake model:
   that a thread blocked in `thread-join!` / `channel/recv` is woken when the value arrives, mutexes
   (`lock-acquire!`), bounded channels and `receivers-select` are not modelled.
-* The repaired handshake (`SteelVerif.C15.ModelR`, proposed fixes of K15a / K15b): the progress theorems above are
-  NOT re-proved for it.  What is proved there is the safety half of "the new exit loop adds no deadlock":
-  `C15.R.parked_has_wakeup` (a thread that parks after a re-check has its token or the round's `unpark()` still to
-  come) and, by evaluation, that the K15a / K15b schedules run to completion (`C15.R.exitRaceR_completes`,
-  `C15.R.lateRegistrationR_ok`); the C16 check run against the patched tree is the rest (builder's report).
+* The repaired handshake (`SteelVerif.C15.ModelR`, fixes of K15a / K15b + the one-word controller): the progress
+  theorems are re-proved for it in `ProgressR.lean`, for every schedule and WITHOUT any guard (host interrupts, spawn
+  attempts and overlapping requests included): `R.no_deadlock_repaired` (every reachable state: all threads quiescent
+  or some runtime step changes a pc), `R.stop_round_terminates` (the stopper changes its pc at most `7·n + 9` times
+  per round), `R.awaited_settles` + `R.settled_unblocks` (no livelock in the new exit loop: while its STOP bit stands
+  a thread takes at most 3 own steps before it is published for good, so it goes round retract → re-check → re-publish
+  at most once per round and the stopper never waits for it again).  Still not a theorem: that the steps are taken
+  (fairness), progress of EACH thread.
 * Relaxed atomics (the model is sequentially consistent; the one store→load pair of the repaired handshake:
   `C15.R.Litmus`), wall-clock bounds.
 All of these are covered only by the program-level differential run (checks/c16.py). -/
